@@ -375,6 +375,64 @@ class C01(LockCheck):
     design_ref = '6 C01'
 
 
+class C02(LockCheck):
+    lean_module = 'CppUtil.Props.C02'
+    theorems = ['CppUtil.Props.c02_blocked_lock_pess', 'CppUtil.Props.c02_blocked_lock_opt',
+                'CppUtil.Props.c02_blocked_upgrade_pess', 'CppUtil.Props.c02_blocked_upgrade_opt',
+                'CppUtil.Props.c02_blocked_reader_opt', 'CppUtil.Props.c02_solo_acquire',
+                'CppUtil.Props.c02_quiescent_free_pess', 'CppUtil.Props.c02_quiescent_free_opt']
+    categories = []
+    stuck_relevant = True
+
+
+class C03(LockCheck):
+    lean_module = 'CppUtil.Props.C03'
+    components = ['opt']
+    theorems = ['CppUtil.Props.c03_decisive_read', 'CppUtil.Props.c03_check_iff', 'CppUtil.Props.c03_trylock_sound',
+                'CppUtil.Props.c03_window', 'CppUtil.WLock.opt_specs']
+    categories = ['version']
+
+
+class C07(LockCheck):
+    lean_module = 'CppUtil.Props.C07'
+    theorems = ['CppUtil.Props.c07_release_enabled_iff', 'CppUtil.Props.c07_release_finishes',
+                'CppUtil.Props.c07_done_absorbing', 'CppUtil.Props.c07_release_once']
+    categories = ['guard']
+
+
+class C09(LockCheck):
+    lean_module = 'CppUtil.Props.C09'
+    components = ['opt']
+    theorems = ['CppUtil.Props.c09_version_discipline', 'CppUtil.Props.c09_xguard_version',
+                'CppUtil.Props.c09_release_word', 'CppUtil.Props.c09_downgrade_word', 'CppUtil.WLock.opt_specs']
+    categories = ['verdisc']
+
+
+class C10(LockCheck):
+    lean_module = 'CppUtil.Props.C10'
+    theorems = ['CppUtil.Props.c10_no_other_sixx_pess', 'CppUtil.Props.c10_no_other_sixx_opt',
+                'CppUtil.Props.c10_no_gap', 'CppUtil.Props.c10_upgrade_alone_pess',
+                'CppUtil.Props.c10_upgrade_alone_opt']
+    categories = ['excl']
+
+    def relevant_failure(self, r):
+        msg = super().relevant_failure(r)
+        if msg and msg.startswith('excl'):
+            # C10 is about SIX/X holders and conversions
+            if 'conversion' in msg or 'mode SIX' in msg or 'mode X' in msg:
+                return msg
+            return None
+        return msg
+
+
+class C13(LockCheck):
+    lean_module = 'CppUtil.Props.C13'
+    components = ['opt']
+    theorems = ['CppUtil.Props.c13_version_result', 'CppUtil.Props.c13_shared_fallback',
+                'CppUtil.Props.c13_cas_from_noX', 'CppUtil.WLock.opt_specs']
+    categories = ['prepare']
+
+
 PROPS = {
-    'C01': C01,
+    'C01': C01, 'C02': C02, 'C03': C03, 'C07': C07, 'C09': C09, 'C10': C10, 'C13': C13,
 }
